@@ -567,7 +567,18 @@ def run_C02(ctx):
     cases = gen_cases(ctx, 12 if quick else 150)
     data = correspondence(out, ctx, cases, engines=("np",), per_case_points=2 if quick else 8,
                           distinct=distinct)
+    rng = ctx["rng"]
     for (net, pv, pts, mtree, stree, run) in data:
+        # conservation is not restricted to forward traffic: a state with some negative speeds (hence negative
+        # flows through a node) is balanced just the same when nothing is clamped
+        pts = list(pts)
+        for _ in range(2):
+            sv_ = dict(pts[0][1])
+            for k_ in list(sv_):
+                if k_.startswith("v.") and rng.random() < 0.35:
+                    sv_[k_] = -abs(sv_[k_]) * rng.choice([0.05, 0.5, 1.0])
+            if not dyn.near_excluded(net, pv, sv_):
+                pts.append(("signed", sv_))
         for mode, sv in pts:
             try:
                 got = run.numpy_step(sv)
@@ -769,6 +780,54 @@ def run_C04(ctx):
                                     fail(out, f"C04:{topo_key(net)}:indep", net, pv, sv, f"{tag}: argument {i} is not a vector of independent symbols")
                         except Exception:
                             pass
+    # ---- positions without reference to the documented order: whatever the caller supplied as initial
+    # conditions (own symbols, keys in any order, only some of them) and whatever happened before (a step that
+    # failed half-way), IF a function is returned, result k is named after - and as long as - state argument k
+    import casadi as cs
+    for ci, (net, pv, pts, mtree, stree, run0) in enumerate(data):
+        for sym in ("SX", "MX"):
+            symtype = getattr(cs, sym)
+            for scenario in ("user-symbols", "failed-step"):
+                try:
+                    Rs = impl.Real(net, pv)
+                    eng = impl.CsEngine(sym)
+                    kw = Rs.step_kwargs()
+                    what = scenario
+                    if scenario == "user-symbols":
+                        ic = {}
+                        for j, (l, v) in enumerate(net.links.items()):
+                            full = [("v", symtype.sym(f"uv{l}", v["N"], 1)), ("rho", symtype.sym(f"urho{l}", v["N"], 1))]
+                            ic[Rs.links[l]] = dict(full if (j + ci) % 3 == 0 else (full[:1] if (j + ci) % 3 == 1 else full[::-1]))
+                        Rs.net.step(init_conditions=ic, engine=eng, **kw)
+                        what = "links initialised with the caller's own symbols, keys in the order " + \
+                               str([list(d) for d in ic.values()])
+                    else:
+                        try:
+                            Rs.net.step(engine=eng, **{k: v for k, v in kw.items() if k not in ("tau", "eta")})
+                            continue          # (did not fail: nothing to check here)
+                        except (TypeError, KeyError):
+                            pass
+                        what = "a Network.step that failed half-way (tau, eta missing)"
+                    for compact in (0, 1):
+                        try:
+                            F = eng.to_function(Rs.net, compact=compact, more_out=False, **kw)
+                        except RuntimeError:
+                            continue          # refusing is always consistent with this clause
+                        out["coverage"]["evaluations"] += 1
+                        ni = [(F.name_in(i), F.size1_in(i)) for i in range(F.n_in())]
+                        no = [(F.name_out(i), F.size1_out(i)) for i in range(F.n_out())]
+                        want = [(n + "+", k) for n, k in ni[:len(no)]]
+                        nstate = sum(1 for n, _ in ni if n.startswith(("rho_", "w_")) or
+                                     (n.startswith("v_") and not n.startswith("v_ctrl_"))) if compact == 0 else \
+                            sum(1 for n, _ in ni if n in ("rho", "v", "w"))
+                        if no != want or len(no) != nstate:
+                            fail(out, f"C04:{topo_key(net)}:position:{scenario}", net, pv, None,
+                                 f"{sym} compact={compact}, {what}: results {no} are not the successors, position by "
+                                 f"position, of the {nstate} state arguments {ni[:max(nstate, len(no))]}",
+                                 sym=sym, compact=compact, scenario=scenario)
+                except Exception as ex:
+                    fail(out, f"C04:{topo_key(net)}:position-raise", net, pv, None,
+                         f"{sym}, {scenario}: raised {ex!r:.300}", sym=sym, scenario=scenario)
     return finish(out, distinct, data, RULE + "; each network compiled with unique and with colliding element "
                   "names on SX/MX at compactness 0/1/2 with/without extra outputs; results compared positionally "
                   "with the NumPy step through the documented layout derived from the description; "
@@ -874,6 +933,19 @@ def run_C11(ctx):
                             if o[f]:
                                 svc = clamp_init(svc, f)
                         base = step(svc, {n: False for n in OPT_NAMES})
+                        # "with all options off nothing is clamped": the all-off step is the plain METANET step
+                        # (specification tree), also where that gives negative speeds, densities or queues
+                        if stree is not None and not any(o.values()):
+                            spec_v = dyn.eval_all(stree, dyn.env_of(pv, sv))
+                            for k in keys:
+                                v_, mag_, _b = spec_v[k]
+                                if math.isnan(v_) or math.isnan(got[k]) or math.isinf(v_):
+                                    continue
+                                if not tree.close(v_, got[k], mag_):
+                                    fail(out, f"C11:{topo_key(net)}:alloff", net, pv, sv,
+                                         f"{backend}: all options off: {k} = {got[k]!r}, the unclamped METANET value is {v_!r}",
+                                         opts=o, backend=backend)
+                                    break
                         exp = {}
                         for k in keys:
                             fl = {"rho+": "pn_rho", "v+": "pn_v", "w+": "pn_w"}[k.split()[0]]
@@ -1002,12 +1074,18 @@ def run_C14(ctx):
 
 # ---------------------------------------------------------------------------
 # C10: structural dependence of the compiled function  ⊆  variables of the specification tree
-def symbolic_deps(R, net):
+def symbolic_deps(R, net, shared=False):
     """step the real network with an SX engine and return {result key: set of input tokens its expression
-    contains}; a symbol that is not a variable of this network is reported as 'foreign <name>'"""
+    contains}; a symbol that is not a variable of this network is reported as 'foreign <name>'.
+    shared: all queued origins are given one and the same (empty, i.e. partial) dictionary of initial conditions"""
     import casadi as cs
     eng = impl.CsEngine("SX")
-    R.net.step(engine=eng, **R.step_kwargs())
+    if shared:
+        one = {}
+        ic = {R.origins[o]: one for o, k in net.origins.items() if k != "ideal"}
+        R.net.step(init_conditions=ic, engine=eng, **R.step_kwargs())
+    else:
+        R.net.step(engine=eng, **R.step_kwargs())
     tok = {}
 
     def reg(x, toks):
@@ -1061,19 +1139,22 @@ def run_C10(ctx):
         # the stepped expressions themselves (no compilation needed): every symbol a next state is built
         # from must be one of its model neighbours; a symbol that is no variable of this network at
         # all (left over from another network or an earlier step) is an outside influence as well
-        try:
-            deps = symbolic_deps(run.R, net)
-        except Exception as ex:
-            disagree(out, net, pv, sv, f"symbolic step raised {ex!r:.200}")
-            deps = {}
-        for okey, toks in deps.items():
-            allowed = tree.tree_vars(stree[okey])
-            out["coverage"]["evaluations"] += 1
-            for itok in sorted(toks - allowed):
-                fail(out, f"C10:{topo_key(net)}:sym:{okey.split()[0]}", net, pv, sv,
-                     f"SX step: the expression of {okey} contains {itok}, which is not among its model neighbours "
-                     f"{sorted(allowed & set(sv))} (case {ci} of this run: earlier cases were stepped before in the "
-                     f"same process)", observable=okey, input=itok, case_index=ci)
+        nq = sum(1 for k_ in net.origins.values() if k_ != "ideal")
+        for shared in ((False, True) if nq >= 2 else (False,)):
+            try:
+                deps = symbolic_deps(run.R if not shared else impl.Real(net, pv), net, shared)
+            except Exception as ex:
+                disagree(out, net, pv, sv, f"symbolic step raised {ex!r:.200}")
+                deps = {}
+            for okey, toks in deps.items():
+                allowed = tree.tree_vars(stree[okey])
+                out["coverage"]["evaluations"] += 1
+                for itok in sorted(toks - allowed):
+                    fail(out, f"C10:{topo_key(net)}:sym:{okey.split()[0]}", net, pv, sv,
+                         f"SX step{' (all queued origins given one shared empty dictionary of initial conditions)' if shared else ''}"
+                         f": the expression of {okey} contains {itok}, which is not among its model neighbours "
+                         f"{sorted(allowed & set(sv))} (case {ci} of this run: earlier cases were stepped before in the "
+                         f"same process)", observable=okey, input=itok, case_index=ci, shared_dict=shared)
         for sym in (("SX",) if quick else ("SX", "MX")):
             for compact in ((0, ci % 2 + 1) if quick else (0, 1, 2)):
                 try:
@@ -1107,6 +1188,18 @@ def run_C10(ctx):
             ref = run.numpy_step(sv)
         except Exception:
             continue
+        # what the elements are called has no influence either: colliding names, same initial conditions
+        try:
+            again = Runner(net, pv, names=colliding_names(net, rng)).numpy_step(sv)
+            out["coverage"]["evaluations"] += 1
+            for k in state_keys(net):
+                if not (again[k] == ref[k] or (math.isnan(again[k]) and math.isnan(ref[k]))):
+                    fail(out, f"C10:{topo_key(net)}:np:names", net, pv, sv,
+                         f"NumPy: with colliding element names {k} = {again[k]!r}, with unique names {ref[k]!r}: "
+                         f"an element's next state depends on another element's data", observable=k)
+                    break
+        except Exception as ex:
+            fail(out, f"C10:{topo_key(net)}:np:names-raise", net, pv, sv, f"NumPy step with colliding names raised {ex!r:.200}")
         toks = [t for t in sv if not t.startswith("vc.") or True]
         for t in (toks if not quick else rng.sample(toks, min(len(toks), 6))):
             sv2 = dict(sv)
@@ -1156,7 +1249,8 @@ def run_C16(ctx):
                 ptoks = list(dict.fromkeys(ptoks))
             tfjobs16.append((run, ("SX", "MX")[(ci + rep) % 2], (ci + rep) % 3, bool(rep % 2), None, list(ptoks), sv))
             for sym in ("SX", "MX"):
-                for compact in ((0, 1, 2) if not quick else ((ci + rep) % 3,)):
+                # (levels outside 0..2 are documented: <= 0 separate trailing arguments, > 0 one stacked vector)
+                for compact in ((0, 1, 2, -1, -2, 3) if not quick else ((ci + rep) % 3, (-1 - ci % 2) if rep == 0 else 3)):
                     more = bool((ci + rep) % 2)
                     tag = f"{sym} compact={compact} more_out={more} parameters={ptoks}"
                     try:
@@ -1191,6 +1285,40 @@ def run_C16(ctx):
                         fail(out, f"C16:{topo_key(net)}:value", net, pv, sv,
                              f"{tag}: {k} = {x!r} with symbolic parameters evaluated at their values, {y!r} with numbers",
                              ptoks=ptoks, sym=sym, compact=compact)
+        # the turn rates of all links leaving one node declared symbolic and evaluated at EQUAL values (the
+        # default 1.0): distinct symbols, equal numbers
+        nodes_, edges_ = net.graph()
+        for (n_, _o, _d) in nodes_:
+            outs = [l for (u, d, l) in edges_ if u == n_]
+            if len(outs) < 2:
+                continue
+            pv2 = dict(pv)
+            for l in outs:
+                pv2[f"lp.{l}.turnrate"] = 1.0
+            if dyn.near_excluded(net, pv2, sv):
+                continue
+            run2 = Runner(net, pv2)
+            ptoks = [f"lp.{l}.turnrate" for l in outs]
+            for sym in ("SX", "MX"):
+                compact = ci % 3
+                tag = f"{sym} compact={compact} turn rates of the links leaving node {n_} symbolic, all evaluated at 1.0"
+                try:
+                    Fn, _ = run2.function(sym, compact, False)
+                    ref, _p = run2.call(Fn, compact, False, sv)
+                    Fp, _ = run2.function(sym, compact, False, None, ptoks)
+                    vals, probs = run2.call(Fp, compact, False, sv, ptoks)
+                except Exception as ex:
+                    fail(out, f"C16:{topo_key(net)}:equal-turnrates-raise", net, pv2, sv, f"{tag}: raised {ex!r:.300}", ptoks=ptoks)
+                    continue
+                out["coverage"]["evaluations"] += 1
+                if ref is None or vals is None:
+                    continue
+                bad = states_close(vals, ref, keys)
+                if bad:
+                    k, x, y = bad[0]
+                    fail(out, f"C16:{topo_key(net)}:equal-turnrates", net, pv2, sv,
+                         f"{tag}: {k} = {x!r}, compiled with the numbers {y!r}", ptoks=ptoks, sym=sym, compact=compact)
+            break
     tf_correspondence(out, ctx, tfjobs16)
     return finish(out, distinct, data, RULE + "; random subsets and orders of link/origin/model parameters made symbolic and declared; "
                   "SX/MX, compactness 0/1/2, with/without extra outputs; distinct = (topology, parameter list, symbol type, level)")
@@ -1247,6 +1375,23 @@ def run_C17(ctx):
                 vals, probs = run.call(F, 0, True, sv)
                 if vals is not None:
                     results.append(("CasADi", vals, vals))
+            except Exception:
+                pass
+            # the reported flows read off a function compiled for the same network with colliding element names
+            # (level rep % 3): what an origin is called does not decide which flow is reported as its own
+            try:
+                if rep < 2 and len(net.origins) >= 2:
+                    runc = Runner(net, pv, names=colliding_names(net, rng))
+                    cl = ("SX", "MX")[rep % 2]
+                    Fc, _ = runc.function(cl, rep % 3, True)
+                    valsc, probs = runc.call(Fc, rep % 3, True, sv)
+                    if valsc is not None:
+                        results.append((f"CasADi {cl} compact={rep % 3}, colliding names {sorted(set(runc.names.values()))}", valsc, valsc))
+                    elif any("result sizes" in p_ for p_ in probs):
+                        fail(out, f"C17:{topo_key(net)}:reported-flows", net, pv, sv,
+                             f"CasADi {cl} compact={rep % 3}, colliding names {sorted(set(runc.names.values()))}: the flows of the "
+                             f"{len(net.origins)} origins cannot be read off the function - " + "; ".join(p_ for p_ in probs if "result sizes" in p_)[:400],
+                             names={str(k_): v_ for k_, v_ in runc.names.items()})
             except Exception:
                 pass
             for (who, nxt, rep_q) in results:
@@ -1427,8 +1572,15 @@ def run_C18(ctx):
                 distinct.add((topo_key(net), "vsl", l, tuple(vslset)))
         # --- origins
         for o, k in net.origins.items():
-            if k in ("ramp_in", "ramp_out", "simp_lim"):
+            for jam in ((False, True) if k in ("ramp_in", "ramp_out", "simp_lim") else ()):
                 sv = dict(sv0)
+                if jam:
+                    # the equalities are not restricted to rho <= rho_max: an over-jammed first segment (the space
+                    # factor is negative) must not tell the variants apart either
+                    nodes_j, edges_j = net.graph()
+                    n_j = [n for (n, oo, d) in nodes_j if oo == o][0]
+                    l_j = [e for e in edges_j if e[0] == n_j][0][2]
+                    sv[f"rho.{l_j}.0"] = pv[f"lp.{l_j}.rho_max"] * rng.uniform(1.05, 1.5)
                 ref = None
                 for kind, u in (("ramp_out", 1.0), ("ramp_in", 1.0), ("simp_lim", rng.choice(INF))):
                     var = variant_net(net, lambda n: n.origins.__setitem__(o, kind))
@@ -1839,6 +1991,27 @@ def run_C12(ctx):
                             break
         except Exception as ex:
             fail(out, f"C12:{tk}:partial-raise", net, pv, sv, f"stepping from a partial dictionary of initial conditions raised {ex!r:.300}")
+        # element parameters given as NumPy values (0-d arrays for the turn rates): two steps leave them as they
+        # were and both give what numbers give
+        try:
+            Rw = impl.Real(net, pv, param_wrap=lambda tok, x: np.array(x, dtype=float) if tok.endswith(".turnrate") else x)
+            par0 = elem_params(Rw)
+            for rep in range(2):
+                got_w, _ = Rw.numpy_step(sv)
+                out["coverage"]["evaluations"] += 1
+                if elem_params(Rw) != par0:
+                    diff = [(k, a, elem_params(Rw)[k][a], v) for k, d_ in par0.items() for a, v in d_.items() if elem_params(Rw)[k][a] != v]
+                    fail(out, f"C12:{tk}:params-array", net, pv, sv,
+                         f"turn rates given as 0-d NumPy arrays: after step {rep + 1} element parameters changed: "
+                         f"{[(k, a, 'now ' + x, 'was ' + y) for (k, a, x, y) in diff[:3]]}")
+                    break
+                bad = [k for k in keys if not same_float(got_w[k], ref[k]) and not tree.close(got_w[k], ref[k], max(abs(ref[k]), 1.0))]
+                if bad:
+                    fail(out, f"C12:{tk}:params-array-value", net, pv, sv,
+                         f"turn rates given as 0-d NumPy arrays, step {rep + 1}: {bad[0]} = {got_w[bad[0]]!r}, with numbers {ref[bad[0]]!r}")
+                    break
+        except Exception as ex:
+            fail(out, f"C12:{tk}:params-array-raise", net, pv, sv, f"stepping with turn rates given as 0-d arrays raised {ex!r:.300}")
         # declared symbolic parameters: the supplied dictionary is left alone, a second compilation with it works
         try:
             cand = [f"lp.{l}.{p_}" for l in net.links for p_ in ("rho_crit", "a", "v_free")][:3]
